@@ -28,7 +28,7 @@ import (
 
 const textExpr = `. as [$f, $b]
 | try
-    ( $b | decode($f) | . as $r
+    ( $b | (if $f == "xml_array" then decode("xml"; {array: true}) else decode($f) end) | . as $r
     | if $r._error != null then "err"
       else [ (try [$r | if $f == "bson" then torepr else tovalue end] catch "reprerr"), [] ]
       end
@@ -505,6 +505,22 @@ func genDocs(r *hlib.Rand, n int, want map[string]bool) []*tdoc {
 						garbage: [][]byte{[]byte("x"), []byte("<z/>"), []byte("</a>")}})
 				}
 			}
+		}
+		if on("xml") {
+			// namespace-using documents, hand-serialised; object form and array form
+			var e *nsElem
+			if ds := nsDirected(); i < len(ds) {
+				e = ds[i]
+			} else {
+				e = genNSElem(vr, nil, 0)
+			}
+			var sb strings.Builder
+			e.write(&sb)
+			doc := []byte(sb.String())
+			ds = append(ds, &tdoc{format: "xml", doc: doc, expected: anyString(map[string]any{e.qname(): e.toObj()}),
+				garbage: [][]byte{[]byte("x"), []byte("<z/>")}})
+			ds = append(ds, &tdoc{format: "xml_array", doc: doc, expected: anyString(e.toArr()),
+				garbage: [][]byte{[]byte("x")}})
 		}
 		if on("csv") {
 			rows, cols := 1+vr.Intn(4), 1+vr.Intn(4)
